@@ -1,8 +1,119 @@
 import MidnightZK.Model.Common
-/-! Line-protocol handler of property C07 (stub: answers `unimplemented`). -/
+import MidnightZK.Model.C07.Poseidon
+import MidnightZK.Gen.C07Poseidon
+/-! Line-protocol handler of property C07. -/
 namespace MidnightZK.C07.Driver
+open MidnightZK MidnightZK.C07
 
-def answer (_line : String) : String := "unimplemented"
+abbrev Fq := Fp Gen.p
+def fq (n : Nat) : Fq := Fp.ofNat Gen.p n
+def fqList (l : List Nat) : List Fq := l.map fq
+def fmtFq (l : List Fq) : String := fmtHexList (l.map (·.val))
+
+/-- The shipped parameters (generated from the Rust sources). -/
+def params : PParams Fq :=
+  { width := Gen.width, rate := Gen.rate, nbFull := Gen.nbFull, nbPartial := Gen.nbPartial,
+    mds := Gen.mds.map fqList, rc := Gen.roundConstants.map fqList }
+
+def smax : Nat := max Gen.nbSkipsCpu Gen.nbSkipsCircuit
+/-- `PreComputedRoundCPU::init()`. -/
+def preCpu : PreComputed Fq := PreComputed.init params smax Gen.nbSkipsCpu
+/-- `PreComputedRoundCircuit::init()`. -/
+def preCircuit : PreComputed Fq := PreComputed.init params smax Gen.nbSkipsCircuit
+
+def permCpu (st : List Fq) : List Fq := permutationCpu params preCpu st
+def permCircuit (st : List Fq) : List Fq := permutationCpu params preCircuit st
+
+def permOf (side : String) : Option (List Fq → List Fq) :=
+  match side with
+  | "cpu" => some permCpu
+  | "circuit" => some permCircuit
+  | "textbook" => some (textbook params)
+  | "raw" => some (permutationRaw params)
+  | _ => none
+
+/-- Sponge script: `L<n>` / `N` (init), then `a:<list>` (absorb) and `s` (squeeze) tokens. -/
+def runSponge (perm : List Fq → List Fq) (toks : List String) : Option String := do
+  let (init, rest) ← match toks with
+    | t :: rest =>
+      if t = "N" then some (Sponge.init params fq none, rest)
+      else if t.startsWith "L" then (t.drop 1).toString.toNat?.map (fun n => (Sponge.init params fq (some n), rest))
+      else none
+    | [] => none
+  let mut st := init
+  let mut outs : List String := []
+  for t in rest do
+    if t = "s" then
+      match Sponge.squeeze params fq perm st with
+      | none => return (" ".intercalate (outs ++ ["panic"]))
+      | some (st', o) => st := st'; outs := outs ++ [toHex o.val]
+    else if t.startsWith "a:" then
+      let l ← parseNatList? (t.drop 2).toString
+      st := st.absorb (fqList l)
+    else none
+  return (if outs.isEmpty then "-" else " ".intercalate outs)
+
+/-- Rows of the in-circuit permutation region after the `add_constants` row: one line item per
+round row `F:<state>|<hints>|<consts>` / `P:<state>|<pows>|<consts>` and the final state `O:<state>`. -/
+def traceRows (st : List Fq) : List String := Id.run do
+  let P := params
+  let W := P.width
+  let mut s := vec W (fun i => st.getD i 0 + P.k 0 i)
+  let mut rows : List String := []
+  for r in List.range (P.nbFull / 2) do
+    let hints := vec W (fun i => let x := s.getD i 0; x * (x * x))
+    rows := rows ++ [s!"F:{fmtFq s}|{fmtFq hints}|{fmtFq (shiftedConsts P r)}"]
+    s := fullRoundCpu P r s
+  for b in List.range (P.nbPartial / (1 + preCircuit.id.nbSkips)) do
+    let rcs := preCircuit.roundConstants.getD b []
+    let (s', pows) := preCircuit.id.eval W rcs s
+    rows := rows ++ [s!"P:{fmtFq s}|{fmtFq pows}|{fmtFq rcs}"]
+    s := s'
+  for r0 in List.range (P.nbFull / 2) do
+    let r := P.nbFull / 2 + P.nbPartial + r0
+    let hints := vec W (fun i => let x := s.getD i 0; x * (x * x))
+    rows := rows ++ [s!"F:{fmtFq s}|{fmtFq hints}|{fmtFq (shiftedConsts P r)}"]
+    s := fullRoundCpu P r s
+  return rows ++ [s!"O:{fmtFq s}"]
+
+def answer (line : String) : String :=
+  match words line with
+  | ["perm", side, st] =>
+    match permOf side, parseNatList? st with
+    | some f, some st => fmtFq (f (fqList st))
+    | _, _ => "bad-op"
+  | ["hash", side, inputs] =>
+    match permOf side, parseNatList? inputs with
+    | some f, some l =>
+      match hash params fq f (fqList l) with
+      | some d => toHex d.val
+      | none => "panic"
+    | _, _ => "bad-op"
+  | "sponge" :: side :: toks =>
+    match permOf side with
+    | some f => (runSponge f toks).getD "bad-op"
+    | none => "bad-op"
+  | ["varlen", maxLen, len, buffer] =>
+    match maxLen.toNat?, len.toNat?, parseNatList? buffer with
+    | some m, some n, some b =>
+      if b.length ≠ m ∨ m % params.rate ≠ 0 ∨ n > m then "bad-op"
+      else toHex (varlen params fq permCircuit m (fqList b) n).val
+    | _, _, _ => "bad-op"
+  | ["buffer", maxLen, align, filler, data] =>
+    match maxLen.toNat?, align.toNat?, parseNat? filler, parseNatList? data with
+    | some m, some a, some f, some d =>
+      if a = 0 ∨ d.length > m then "bad-op" else fmtFq (vecBuffer m a (fqList d) (fq f))
+    | _, _, _, _ => "bad-op"
+  | ["trace", st] =>
+    match parseNatList? st with
+    | some st => " ".intercalate (traceRows (fqList st))
+    | none => "bad-op"
+  | ["rcopt", side] =>
+    match side with
+    | "cpu" => " ".intercalate (preCpu.roundConstants.map fmtFq)
+    | "circuit" => " ".intercalate (preCircuit.roundConstants.map fmtFq)
+    | _ => "bad-op"
+  | _ => "bad-op"
 
 end MidnightZK.C07.Driver
 
